@@ -298,6 +298,7 @@ func firstDiff(a, b []byte) int {
 }
 
 func c16Damage(rc *RunCtx) {
+	rc.StrictBufs = true
 	a, b := c16Pipe(rc)
 	// build a byte stream: some good frames, then damage
 	var stream []byte
@@ -346,6 +347,16 @@ func c16Damage(rc *RunCtx) {
 	for {
 		bp, err := dnsutils.ReadRawMsgFromTCP(b)
 		if err != nil {
+			// "... yields an error, never ... a buffer": what comes with an error is
+			// either nothing or a buffer the caller owns (the documented idiom
+			// releases a non-nil result), never one that already went back to the pool
+			if bp != nil {
+				if rc.Released(bp) {
+					rc.Fail("released_buffer_returned_with_error", "ReadRawMsgFromTCP returned error %q together with a %d-byte buffer that it had already released to the pool", err, len(*bp))
+					return
+				}
+				pool.ReleaseBuf(bp)
+			}
 			simrt.Probe("c16.damage_reported_as_error")
 			break
 		}
